@@ -118,6 +118,56 @@ func init() {
 		w.Line("def sendGuardBody : List String := %s", StrList(guardBody))
 		w.Line("def sendCalls : Nat := %d", sendCalls)
 		w.Line("def pullErrorReturns : Bool := %s", Bool(errReturns))
+
+		// the data path below pull: top-level `if` / `return` statements of the op.go getters
+		shape := func(name, file, recv, fn string) error {
+			fd, err := r.Func(file, recv, fn)
+			if err != nil {
+				return err
+			}
+			var out []string
+			for _, st := range fd.Body.List {
+				switch st.(type) {
+				case *ast.IfStmt, *ast.ReturnStmt:
+					out = append(out, r.Src(st))
+				}
+			}
+			w.Line("def %s : List String := %s", name, StrList(out))
+			return nil
+		}
+		if err := shape("getRawShape", "pkg/cluster/op.go", "cluster", "GetRaw"); err != nil {
+			return err
+		}
+		if err := shape("getShape", "pkg/cluster/op.go", "cluster", "Get"); err != nil {
+			return err
+		}
+		if err := shape("getRawPrefixShape", "pkg/cluster/op.go", "cluster", "GetRawPrefix"); err != nil {
+			return err
+		}
+		if err := shape("getPrefixShape", "pkg/cluster/op.go", "cluster", "GetPrefix"); err != nil {
+			return err
+		}
+		// syncer.pull hands the error on in both branches
+		pfd, err := r.Func("pkg/cluster/syncer.go", "syncer", "pull")
+		if err != nil {
+			return err
+		}
+		keyErr, prefixErr := false, false
+		for _, st := range pfd.Body.List {
+			ifs, ok := st.(*ast.IfStmt)
+			if !ok || len(ifs.Body.List) == 0 {
+				continue
+			}
+			last := r.Src(ifs.Body.List[len(ifs.Body.List)-1])
+			switch r.Src(ifs.Cond) {
+			case "prefix":
+				prefixErr = last == "return result, err" && r.CountCalls(ifs.Body, "s.cluster.GetRawPrefix") == 1
+			case "err != nil":
+				keyErr = last == "return nil, err"
+			}
+		}
+		w.Line("def pullKeyErrorPropagates : Bool := %s", Bool(keyErr && r.CountCalls(pfd.Body, "s.cluster.GetRaw") == 1))
+		w.Line("def pullPrefixErrorPropagates : Bool := %s", Bool(prefixErr))
 		return nil
 	}})
 }
